@@ -1439,6 +1439,8 @@ def c20(ctx):
     corpus = [s for s in diag_corpus(ctx) if 0 not in s and b"\n" not in s]
     shapes = [b"", b" ", b"  ", b"\t", b"#comment", b"# a@b.com", b" #notcomment@b.com", b"a@b.com", b" a@b.com", b"a@b.com ", b"a@b.com\t", b" a@b.com \t", b"a@b.com  ",
               b"\xff", b"a\xff@b.com", b"\xc3", b"\xe2\x82", b"a@b.com\r", b"a\rb@c.com", b"\r", b"a@\x01.com", b"\x7f@b.com", "ж@почта.рф".encode(), "пример@почта.рф ".encode(),
+              "😀@b.com".encode(), "a😀b@x.org".encode(), "\U00010000@b.com".encode(), "x\U000fffff@b.com".encode(), "\U00100000y@b.com".encode(),
+              "\U0010ffff@b.com".encode(), "\uffff\U00010000\u0800\u07ff\u0080@b.com".encode(), "ab\U0001f600".encode(), "\U0001f600".encode() * 3,
               b"a" * 3000 + b"@b.com", "ж".encode() * 2000 + b"@b.com", b"\x01" * 700, b"x" * 8192, b"a@" + b"b." * 4000 + b"com", b"\xff" * 2100, b"a@b.com" + b" " * 3000]
     files = []
     terms = [b"\n", b"\r\n"]
